@@ -6,6 +6,7 @@ package main
 import (
 	"encoding/binary"
 	"math"
+	"unicode/utf8"
 
 	"verifharness/vh"
 )
@@ -261,9 +262,10 @@ const KSimple = 100 // simple value other than false/true/null/undefined (U hold
 const KBigNint = 101 // negative integer below -2^63: value -1-U
 
 type refDec struct {
-	b   []byte
-	pos int
-	bad bool
+	b        []byte
+	pos      int
+	bad      bool
+	badChunk bool // a chunk of an indefinite-length text string is not valid UTF-8 (RFC 8949 3.2.3)
 }
 
 func (d *refDec) need(n int) bool {
@@ -365,6 +367,9 @@ func (d *refDec) item(depth int) (it *Item, isBreak bool) {
 				if !ok || n > uint64(len(d.b)) || !d.need(int(n)) {
 					d.bad = true
 					return nil, false
+				}
+				if mt == 3 && !utf8.Valid(d.b[d.pos:d.pos+int(n)]) {
+					d.badChunk = true
 				}
 				s = append(s, d.b[d.pos:d.pos+int(n)]...)
 				d.pos += int(n)
@@ -517,10 +522,17 @@ func canonNaN(b uint64) uint64 {
 
 // RefDecode reads exactly one well-formed item; n is the number of bytes it occupies.
 func RefDecode(b []byte) (it *Item, n int, ok bool) {
+	it, n, ok, _ = RefDecodeChunks(b)
+	return
+}
+
+// RefDecodeChunks also reports whether every chunk of every indefinite-length text string is valid UTF-8.
+func RefDecodeChunks(b []byte) (it *Item, n int, ok bool, chunksOK bool) {
 	d := &refDec{b: b}
+	defer func() { chunksOK = !d.badChunk }()
 	it, brk := d.item(0)
 	if d.bad || brk || it == nil {
-		return nil, 0, false
+		return nil, 0, false, false
 	}
-	return it, d.pos, true
+	return it, d.pos, true, true
 }
